@@ -17,7 +17,7 @@ EXPLANATION = (
     'From<Request<Op>> builds the variant whose payload is Op; R09.e a registry entry changes state only when a one-shot is consumed — a stream '
     'entry never does, so its id stays bound while it can be resolved, and nothing but a resolver\'s own resolve() overwrites its arity state (no placeholder '
     'is swapped into the registry). Byte-level equality with the typed core for every history is not decided '
-    '(C02 R02.b and C10 R10.d cover arity and codec). R09.a also requires that nothing renumbers the registry slab (who-may-call), R09.f that Bridge::view serialises a fresh Core::view on every path.')
+    '(C02 R02.b and C10 R10.d cover arity and codec). R09.a also requires that nothing renumbers the registry slab (who-may-call), R09.f that Bridge::view serialises a fresh Core::view on every path. R09.g the bridge uses one bincode options value, without a byte limit, for decoding and encoding, and every entry point returns exactly the buffer it created and serialised into (shared with C10).')
 
 
 def check_entry_writers(rep, rid, core):
@@ -176,6 +176,18 @@ SLAB_KEY_STABLE = {'new', 'with_capacity', 'insert', 'get', 'get_mut', 'remove',
                    'reserve_exact', 'shrink_to_fit', 'iter', 'iter_mut', 'vacant_entry', 'key'}
 
 
+def check_resume_atomic(rep, rid, res):
+    """the lookup of the entry, its resolution and its removal all happen inside ONE region of the registry lock"""
+    from rules.props import c03
+    regions = c03.lock_regions(res, ['std::sync::poison::mutex::Mutex::lock'])
+    ops = [bb for bb, t in res.calls('slab::Slab::get_mut', 'slab::Slab::get', 'slab::Slab::remove', 'slab::Slab::try_remove',
+                                     'crux_core::bridge::request_serde::ResolveSerialized::resolve')]
+    ok = len(regions) == 1 and len(ops) >= 3 and all(b in regions[0][3] for b in ops)
+    rep.expect(rid, ok, 'resume|one-lock-region', 'lookup, resolve and remove lie in the single region of the registry lock',
+               'ResolveRegistry::resume: the lookup, the resolution and the removal of an entry are not inside one region of the registry lock '
+               '(%d lock region(s)): a concurrent response for the same id can interleave' % len(regions))
+
+
 def check_resume(rep, rid_a, rid_b, core, res):
     """ResolveRegistry::resume touches only the entry addressed by the id parameter, resolves exactly that entry with the body parameter, and
     removes an entry only when it can no longer be resolved"""
@@ -315,6 +327,13 @@ def check(ctx, rep):
         rep.expect('R09.f', fresh, '%s|fresh-view' % f.kpath, 'no return is reachable without a (transitive) call of Core::view',
                    '%s can return Ok without having serialised the current view of the core (a cached copy would go stale when a call fails after '
                    'update has run)' % f.path)
+    # R09.g: the bridge accepts every message the typed core would and returns exactly the bytes it serialised: the single bincode options
+    # value carries no byte limit or other option that makes the decoder reject (or the encoder change) what the other direction produced,
+    # and each entry point serialises into a buffer created in that call and returns it (shared with C10 R10.d / R10.g)
+    from rules.props import c10 as _c10
+    rep.rule('R09.g', 'one bincode options value without limit for both directions; entry points return exactly the buffer they serialised into', floor=8)
+    _c10.check_codec(ctx, rep, rid='R09.g')
+    _c10.check_output_buffers(rep, 'R09.g', core)
     # R09.e: an id stays bound to its request for as long as the request can be resolved: the entry's state only changes
     # by a one-shot being consumed (shared with C02 R02.a, serialised resolver only)
     rep.rule('R09.e', 'a registry entry changes state only when a one-shot is consumed; a stream entry never changes state', floor=3)
